@@ -76,6 +76,51 @@ def confirm(src, sid):
     return ok
 
 
+def run_isolated(sid, tier='quick', seeds=(0,)):
+    """Like run(), but never touches /repo or /verif's build: the change is applied in a scratch
+    worktree and the checks run from a scratch copy of /verif with LBG_REPO pointing at it
+    (used while other jobs need /repo and /verif/lean unchanged)."""
+    dst = os.path.join(VERIF, 'seeded', sid)
+    meta = json.load(open(os.path.join(dst, 'meta.json')))
+    base = '/tmp/mut_eval'
+    os.makedirs(base, exist_ok=True)
+    vcopy = os.path.join(base, 'verif')
+    sh(['rsync', '-a', '--delete', '--exclude', '.git', '--exclude', 'replays',
+        VERIF + '/', vcopy + '/'])
+    wt = os.path.join(base, 'repo_%s_%d' % (sid, os.getpid()))
+    rc, out = sh(['git', '-C', REPO, 'worktree', 'add', '--detach', wt, 'HEAD'])
+    if rc != 0:
+        print('worktree failed', out)
+        return
+    props = [meta['property']] + meta.get('also', [])
+    try:
+        rc, out = sh(['git', 'apply', '--whitespace=nowarn', os.path.join(dst, 'patch.diff')],
+                     cwd=wt)
+        if rc != 0:
+            print('patch does not apply:', out[-300:])
+            return
+        for prop in props:
+            for seed in seeds:
+                t0 = time.time()
+                env = dict(os.environ, VERIF_SEED=str(seed), VERIF_TIER=tier, LBG_REPO=wt)
+                p = subprocess.run([os.path.join(vcopy, 'check'), prop, '--tier', tier],
+                                   cwd=vcopy, capture_output=True, text=True, env=env,
+                                   timeout=7200)
+                viol = [l for l in p.stdout.split('\n') if l.startswith('VIOLATION')]
+                key = '%s/%s/seed%d' % (prop, tier, seed)
+                meta['results'][key] = {
+                    'exit': p.returncode, 'violations': viol[:3],
+                    'found_input': bool(viol) and not all('no-failing-input-found' in v
+                                                          for v in viol),
+                    'wall_s': round(time.time() - t0, 1),
+                    'tail': p.stdout.strip().split('\n')[-6:]}
+                print(sid, key, 'exit', p.returncode, viol[:1])
+    finally:
+        sh(['git', '-C', REPO, 'worktree', 'remove', '--force', wt])
+        shutil.rmtree(wt, ignore_errors=True)
+        json.dump(meta, open(os.path.join(dst, 'meta.json'), 'w'), indent=1)
+
+
 def run(sid, tier='quick', seeds=(0,)):
     dst = os.path.join(VERIF, 'seeded', sid)
     meta = json.load(open(os.path.join(dst, 'meta.json')))
@@ -128,4 +173,4 @@ if __name__ == '__main__':
                 tier = sys.argv[i + 1]
             if a == '--seeds':
                 seeds = tuple(int(x) for x in sys.argv[i + 1].split(','))
-        run(sys.argv[2], tier, seeds)
+        (run_isolated if '--isolated' in sys.argv else run)(sys.argv[2], tier, seeds)
